@@ -26,6 +26,8 @@ type Front struct {
 	tm   *t.Map
 	base *check.VerifBase
 	uses int
+
+	lastFile *a.File // the parsed (and, up to the error, checked) file of the last Fast call
 }
 
 func NewFront() *Front {
@@ -64,10 +66,12 @@ func (f *Front) Fast(src string) (ck *Checked, err error) {
 		}
 	}()
 	f.uses++
+	f.lastFile = nil
 	file, err := parseSrc(f.tm, src)
 	if err != nil {
 		return nil, err
 	}
+	f.lastFile = file
 	c, err := f.base.Check([]*a.File{file}, nil)
 	if err != nil {
 		return nil, err
